@@ -180,6 +180,34 @@ Section AllExtents.
   Qed.
 End AllExtents.
 
+(* ---- trailing axes are pointwise: a helper term instantiated at arrays (functions of a trailing index t, pointwise
+        operations, Base.C20_Ring.FunOps) evaluated at t is the scalar helper term applied to the slices at t *)
+Section Pointwise.
+  Context {T R : Type} {ops : FOps R}.
+  Notation slice2 A t := (fun i j => A i j t).
+  Notation slice1 u t := (fun i => u i t).
+
+  Lemma det_pointwise (A : mat (T -> R)) (t : T) :
+    np_det_2 A t = np_det_2 (slice2 A t) /\ np_det_3 A t = np_det_3 (slice2 A t) /\
+    jx_det_2 A t = jx_det_2 (slice2 A t) /\ jx_det_3 A t = jx_det_3 (slice2 A t).
+  Proof. repeat split; reflexivity. Qed.
+  Lemma inv_pointwise (A : mat (T -> R)) (t : T) i j :
+    np_inv_2 A i j t = np_inv_2 (slice2 A t) i j /\ np_inv_3 A i j t = np_inv_3 (slice2 A t) i j.
+  Proof. split; destruct i as [|[|[|i]]]; destruct j as [|[|[|j]]]; reflexivity. Qed.
+  Lemma cross_pointwise (a b : vec (T -> R)) (t : T) i :
+    np_cross_2 a b t = np_cross_2 (slice1 a t) (slice1 b t) /\ np_cross_3 a b i t = np_cross_3 (slice1 a t) (slice1 b t) i.
+  Proof. split; [reflexivity | destruct i as [|[|[|i]]]; reflexivity]. Qed.
+  Lemma dot_mul_pointwise n (u v : vec (T -> R)) (A : mat (T -> R)) (t : T) i :
+    np_dot n u v t = np_dot n (slice1 u t) (slice1 v t) /\ np_mul n A u i t = np_mul n (slice2 A t) (slice1 u t) i /\
+    np_trace n A t = np_trace n (slice2 A t).
+  Proof. repeat split; cbv [np_dot np_mul np_trace es_i_i es_ij_j__i es_ii]; apply fsum_pointwise. Qed.
+  Lemma ddot_pointwise n (A B : mat (T -> R)) (t : T) : np_ddot n A B t = np_ddot n (slice2 A t) (slice2 B t).
+  Proof. cbv [np_ddot es_ij_ij]. rewrite fsum_pointwise. apply (fsum_ext n). intros i _. apply fsum_pointwise. Qed.
+  Lemma sym_grad_pointwise n (u : vec (T -> R)) (G : mat (T -> R)) (t : T) i j :
+    np_sym_grad n u G i j t = np_sym_grad n (slice1 u t) (slice2 G t) i j.
+  Proof. reflexivity. Qed.
+End Pointwise.
+
 Section FieldPart.
   Context {R : Type} {ops : FOps R}.
   Hypothesis Fth : field_theory f0 f1 fadd fmul fsub fopp fdiv finv (@eq R).
